@@ -117,6 +117,61 @@ def vocab_consts():
     return ''.join('pub const ID_%s: u8 = %d;\n' % (v, i) for i, v in enumerate(VOCAB))
 
 
+# source spelling -> mnemonic the interpreter must be given (oracle: Intel synonym table; everything
+# else must be emitted as its own lower-case spelling)
+SYNONYMS = {'shl': 'sal', 'jnbe': 'ja', 'jnb': 'jae', 'jnae': 'jb', 'jna': 'jbe', 'jz': 'je', 'jnle': 'jg', 'jnl': 'jge',
+            'jnge': 'jl', 'jng': 'jle', 'jnz': 'jne', 'jpo': 'jnp', 'jpe': 'jp', 'loopz': 'loope', 'loopnz': 'loopne',
+            'repe': 'repz', 'repne': 'repnz'}
+
+
+def spelling_module(g, leaves, params):
+    """Generated harness module (assembler side): for every enumeration-like nonterminal that yields a
+    String (mnemonic tables, register tables, width keywords) one straight-line harness runs the real
+    action for EVERY source spelling and compares the emitted text with the lower-case spelling or its
+    Intel synonym; the jump table must in addition emit a mnemonic the interpreter knows.
+    The tables are finite and the actions take no other input, so the selector is concrete: one
+    symbolic execution covers a table exhaustively (a symbolic selector over heap strings does not
+    finish: probe > 400 s)."""
+    call_args = ', '.join(n for n, _ in params)
+    prop_of = {'quote_jmps_loops': 'c06', 'quote_condition_repeat': 'c07', 'quote_condition_repeat_opcode': 'c07',
+               'quote_repeat_opcode': 'c07'}
+    L = ['// GENERATED by lib/gen.py (spelling_module)',
+         'use crate::{vassert, vassume, vcover, vsym};',
+         'use crate::interpreter::interpreter::verif_interp as iv;',
+         'fn eq(a: &str, b: &str) -> bool { a.as_bytes() == b.as_bytes() }',
+         'fn known_jump(t: &str) -> bool { let mut k = 0; let mut r = false; while k < iv::NT_jumps_condition_N as usize { if eq(t, iv::NT_jumps_condition_TEXT[k]) { r = true; } k += 1; } r }',
+         '#[cfg(not(kani))] fn note(nt: &str, src: &str, got: &str, exp: &str) { crate::verif_rt::native::note(format!("{} {:?} -> {:?} (expected {:?})", nt, src, got, exp)); }',
+         '#[cfg(kani)] fn note(_nt: &str, _src: &str, _got: &str, _exp: &str) {}']
+    names = []
+    for nt, alts in sorted(leaves.items()):
+        if g.sigs[g.by_lhs[nt][0].action][1] != 'String':
+            continue
+        prop = prop_of.get(nt, 'c11')
+        P = prop.upper()
+        chunks = [alts[i:i + 16] for i in range(0, len(alts), 16)]
+        for ci, chunk in enumerate(chunks):
+            h = '%ss_%s' % (prop, nt) + ('_%d' % ci if len(chunks) > 1 else '')
+            names.append(h)
+            L.append('#[cfg_attr(kani, kani::proof)]\n#[cfg_attr(kani, kani::unwind(40))]\npub fn %s() {' % h)
+            L.append('    let mut ctx = crate::util::preprocessor_util::Context::default();')
+            L.append('    let mut out_ = crate::util::preprocessor_util::Output::default();')
+            L.append('    let (context, out) = (&mut ctx, &mut out_);')
+            L.append('    let input = "";\n    let mut ok = true;\n    let mut known = true;')
+            for (expr, text) in chunk:
+                low = text.lower()
+                exp = SYNONYMS.get(low, low)
+                L.append('    { let g: String = %s; if !eq(g.as_str(), %s) { ok = false; note(%s, %s, g.as_str(), %s); }%s std::mem::forget(g); }'
+                         % (expr, json.dumps(exp), json.dumps(nt), json.dumps(text), json.dumps(exp),
+                            ' if !known_jump(g.as_str()) { known = false; }' if nt == 'quote_jmps_loops' else ''))
+            L.append('    vassert!("%s.spelling.%s.emitted_text", ok);' % (P, nt))
+            if nt == 'quote_jmps_loops':
+                L.append('    vassert!("C06.spelling.quote_jmps_loops.known_to_interpreter", known);')
+            L.append('    vassert!("%s.spelling.%s.no_output", out_.code.len() == 0 && out_.data.len() == 0);' % (P, nt))
+            L.append('    std::mem::forget(ctx); std::mem::forget(out_);\n}')
+    L.append('pub const TABLE: &[(&str, fn())] = &[%s];' % ', '.join('("%s", %s)' % (n, n) for n in names))
+    return '\n'.join(L) + '\n'
+
+
 def make_shim(g, point):
     params = grammar_params(g)
     lines = ['// GENERATED by /verif/lib/gen.py from %s -- do not edit' % os.path.basename(g.path),
@@ -223,6 +278,11 @@ def attach(tree, kf_active):
             body.append('#![allow(dead_code, unused_imports, unused_variables)]\nuse super::*;\n'
                         + ('use crate::verif_rt::*;\n' if crate == 'lib' else 'use emulator_8086_lib::verif_rt::*;\n'))
         # library modules <point>_a?_*: imported into every module that sorts after them
+        if point == 'prep':
+            genf = os.path.join(os.path.dirname(target), 'verif_prep_spellgen.rs')
+            with open(genf, 'w') as gf:
+                gf.write(spelling_module(g, leaves, grammar_params(g)))
+            by_point.setdefault(point, []).append(('prep_zz_spellgen', genf))
         libs = [st for st, _ in by_point.get(point, []) if re.match(r'^%s_a[a-z]_' % point, st)]
         for stem, f in by_point.get(point, []):
             extra = ''.join('    use super::%s::*;\n' % l for l in libs if l < stem)
